@@ -118,6 +118,15 @@ def models(vidx_interp):
         wr(flow, P, args[0], ("vec", list(v[1]) + [args[1]]))
         return const("unit")
 
+    def v_pop(flow, P, callee, args):
+        v = flow.deref_all(P, args[0])
+        if not (isinstance(v, tuple) and v and v[0] == "vec"):
+            raise Unsupported("Vec::pop(%r)" % (v,))
+        if not v[1]:
+            return ("agg", "Option::None", [])
+        wr(flow, P, args[0], ("vec", list(v[1][:-1])))
+        return ("agg", "Option::Some", [v[1][-1]])
+
     def is_hex(flow, P, callee, args):
         c = flow.deref_all(P, args[0])
         if not flow.is_num(c):
@@ -252,7 +261,7 @@ def models(vidx_interp):
             (r"^Lexer::(?!\w*_error$|invalid_unicode_character$|lex_)\w+$|^Quote::\w+$", helper),      # every other method of the lexer is executed, not assumed
             (r"slice::<impl \[.*\]>::get::<usize>$", slice_get), (r"slice::<impl \[.*\]>::last$", slice_last),
             (r"^Option::<&.*>::copied$|^Option::<&.*>::cloned$", copied), (r"^Option::<.*>::unwrap$|^Result::<.*>::unwrap$", unwrap),
-            (r"^Vec::<.*>::len$", v_len), (r"^Vec::<.*>::push$", v_push),
+            (r"^Vec::<.*>::len$", v_len), (r"^Vec::<.*>::push$", v_push), (r"^Vec::<.*>::pop$", v_pop),
             (r"<impl char>::is_ascii_hexdigit$", is_hex), (r"<impl u32>::from_str_radix$", from_str_radix), (r"<impl char>::from_u32$", from_u32),
             (r"<std::ops::Range<i32> as IntoIterator>::into_iter$", ident), (r"<std::ops::Range<i32> as Iterator>::next$", range_next),
             (r"<Vec<.*> as Index<std::ops::Range<usize>>>::index$", index_range), (r"slice::<impl \[.*\]>::iter$", slice_iter),
@@ -268,8 +277,9 @@ def run(tier, seed, only=None):
                  "Kernel-level partial claim on the lexer: Lexer::lex_single_str (single-line string literals), with consume / peek_cur_ch / emit_singleline_token / "
                  "is_bidi executed as well, on sources `\"` + k arbitrary characters + end of input: (a) no path panics, (b) on every path that returns a token, the token "
                  "starts at the opening quote's line and column and the lexer's column afterwards has advanced by the number of source characters consumed; (c) "
-                 "Lexer::lex_multi_line_str on `\"\"\"` + k characters + end of input does not panic either.  All other token kinds, the positions of multi-line "
-                 "strings, lex_interpolation_mid, indentation, comments and the token iterator around these functions are not decided.", partial=bool(only))
+                 "Lexer::lex_multi_line_str (after three quotes) and Lexer::lex_interpolation_mid (after the closing brace of an interpolation inside a single-line or a "
+                 "multi-line literal) + k characters + end of input do not panic either.  All other token kinds, the positions of multi-line and interpolated strings, "
+                 "indentation, comments and the token iterator around these functions are not decided.", partial=bool(only))
     rep.trusted += ["rustc nightly -Zunpretty=mir as the semantics of the source", "engines/mirsem.py + engines/mirflow.py", "z3 " + z3.get_version_string()]
     s = Scratch("c08")
     try:
@@ -390,58 +400,66 @@ def run(tier, seed, only=None):
             except Unsupported as e:
                 for ob in (obt, obp):
                     ob.update(verdict=INCONCLUSIVE, reason="unsupported-construct: " + str(e)[:200])
-        # ---- the same question of totality for multi-line literals (entered after the three opening quotes)
+        # ---- the same question of totality for multi-line literals (entered after the three opening quotes) and for the continuation of an
+        #      interpolated literal (entered after the `}` that closes the interpolation)
         quote_variants = M.rust_enum_variants(lsrc, "Quote")
-        mm_ = [f for f in fns.values() if f.short == "lex_multi_line_str"]
-        for k in range(kmax + 1):
-            ob = Obligation(dict(base, functions=["Lexer::lex_multi_line_str", "Lexer::consume", "Lexer::emit_multiline_token"], shape="`\"\"\"` + %d character(s) + end of input" % k,
-                                 symbolic=["each character: any Unicode scalar value"], bounds={"chars": k}), key="lex_multi_line_str/total/k=%d" % k)
-            rep.add(ob)
-            if only and not any(o in ob["key"] for o in only.split(",")):
-                ob.update(verdict=INCONCLUSIVE, reason="filtered out")
-                continue
-            if len(mm_) != 1 or not quote_variants or "Double" not in quote_variants:
-                ob.update(verdict=BROKEN, reason="lex_multi_line_str / enum Quote not found as expected")
-                continue
-            chars = [z3.Int("c%d" % i) for i in range(k)]
-            dom = [z3.And(c >= 0, c <= 0x10FFFF, z3.Or(c < 0xD800, c > 0xDFFF)) for c in chars]
-            try:
-                flow = StrFlow(fns, mm_[0], models(interp), dict(vidx, Quote=quote_variants), max_steps=40000)
-                lex = []
-                for f in fields:
-                    lex.append({"chars": ("vec", [("int", 34)] * 3 + [("sint", c) for c in chars]), "cursor": ("int", 3), "col_token_starts": ("int", COL0),
-                                "lineno_token_starts": ("int", 0), "interpol_stack": ("vec", [("agg", "Interpolation::Not", [])])}.get(f, const("lexer_" + f)))
-                pre = {"p_L": ("agg", "Lexer", lex), "_1": Ref("p_L", (), True), "_2": ("agg", "Quote::Double", [])}
-                outs = flow.run("bb0", stop_at=(), pre=pre, pc=list(S.BASE_AXIOMS) + dom)
-                sol = z3.Solver()
-                npaths, npanic, panic_m = 0, 0, None
-                for Q, end in outs:
-                    if end != "return":
-                        continue
-                    sol.push()
-                    sol.add(*Q.pc)
-                    if sol.check() != z3.sat:
+        dq = ("agg", "Quote::Double", [])
+        configs = [
+            ("lex_multi_line_str", "emit_multiline_token", '"""', [("agg", "Interpolation::Not", [])], {"_2": dq}, "`\"\"\"` + %d character(s) + end of input", ""),
+            ("lex_interpolation_mid", "emit_singleline_token", '"\\{x}', [("agg", "Interpolation::Not", []), ("agg", "Interpolation::SingleLine", [])], {}, "`\"\\{x}` + %d character(s) + end of input", "/single-line"),
+            ("lex_interpolation_mid", "emit_singleline_token", '"""\\{x}', [("agg", "Interpolation::Not", []), ("agg", "Interpolation::MultiLine", [dq])], {}, "`\"\"\"\\{x}` + %d character(s) + end of input", "/multi-line"),
+        ]
+        for fshort, emit, prefix, stack, extra, shape, tag in configs:
+            mm_ = [f for f in fns.values() if f.short == fshort]
+            for k in range(kmax + 1):
+                ob = Obligation(dict(base, functions=["Lexer::" + fshort, "Lexer::consume", "Lexer::" + emit], shape=shape % k,
+                                     symbolic=["each character: any Unicode scalar value"], bounds={"chars": k}), key="%s%s/total/k=%d" % (fshort, tag, k))
+                rep.add(ob)
+                if only and not any(o in ob["key"] for o in only.split(",")):
+                    ob.update(verdict=INCONCLUSIVE, reason="filtered out")
+                    continue
+                if len(mm_) != 1 or not quote_variants or "Double" not in quote_variants:
+                    ob.update(verdict=BROKEN, reason="%s / enum Quote not found as expected" % fshort)
+                    continue
+                chars = [z3.Int("c%d" % i) for i in range(k)]
+                dom = [z3.And(c >= 0, c <= 0x10FFFF, z3.Or(c < 0xD800, c > 0xDFFF)) for c in chars]
+                try:
+                    flow = StrFlow(fns, mm_[0], models(interp), dict(vidx, Quote=quote_variants), max_steps=40000)
+                    lex = []
+                    for f in fields:
+                        lex.append({"chars": ("vec", [("int", ord(ch)) for ch in prefix] + [("sint", c) for c in chars]), "cursor": ("int", len(prefix)), "col_token_starts": ("int", COL0),
+                                    "lineno_token_starts": ("int", 0), "interpol_stack": ("vec", list(stack))}.get(f, const("lexer_" + f)))
+                    pre = dict({"p_L": ("agg", "Lexer", lex), "_1": Ref("p_L", (), True)}, **extra)
+                    outs = flow.run("bb0", stop_at=(), pre=pre, pc=list(S.BASE_AXIOMS) + dom)
+                    sol = z3.Solver()
+                    npaths, npanic, panic_m = 0, 0, None
+                    for Q, end in outs:
+                        if end != "return":
+                            continue
+                        sol.push()
+                        sol.add(*Q.pc)
+                        if sol.check() != z3.sat:
+                            sol.pop()
+                            continue
+                        mdl = sol.model()
                         sol.pop()
-                        continue
-                    mdl = sol.model()
-                    sol.pop()
-                    npaths += 1
-                    if any(c[0].startswith("PANIC:") for c in Q.calls):
-                        npanic += 1
-                        panic_m = panic_m or ([mdl.eval(c, model_completion=True).as_long() for c in chars], [c[0] for c in Q.calls if c[0].startswith("PANIC:")][0])
-                ob["queries"] = flow.queries + npaths
-                ob["detail"] = {"paths": npaths, "paths that panic": npanic}
-                if npaths == 0:
-                    ob.update(verdict=BROKEN, reason="no feasible path (vacuous encoding)")
-                elif panic_m:
-                    src = '"""' + "".join(chr(v) for v in panic_m[0])
-                    ob["model"] = {"source": src}
-                    ob.update(verdict=VIOLATED, reason="the lexer panics (%s) on the source %s followed by the end of the input" % (panic_m[1].split(":", 1)[1], json.dumps(src)))
-                    panics.append((ob, src))
-                else:
-                    ob.update(verdict=HELD, reason="none of the %d feasible paths reaches a panic, for every choice of the %d character(s)" % (npaths, k))
-            except Unsupported as e:
-                ob.update(verdict=INCONCLUSIVE, reason="unsupported-construct: " + str(e)[:200])
+                        npaths += 1
+                        if any(c[0].startswith("PANIC:") for c in Q.calls):
+                            npanic += 1
+                            panic_m = panic_m or ([mdl.eval(c, model_completion=True).as_long() for c in chars], [c[0] for c in Q.calls if c[0].startswith("PANIC:")][0])
+                    ob["queries"] = flow.queries + npaths
+                    ob["detail"] = {"paths": npaths, "paths that panic": npanic}
+                    if npaths == 0:
+                        ob.update(verdict=BROKEN, reason="no feasible path (vacuous encoding)")
+                    elif panic_m:
+                        src = prefix + "".join(chr(v) for v in panic_m[0])
+                        ob["model"] = {"source": src}
+                        ob.update(verdict=VIOLATED, reason="the lexer panics (%s) on the source %s followed by the end of the input" % (panic_m[1].split(":", 1)[1], json.dumps(src)))
+                        panics.append((ob, src))
+                    else:
+                        ob.update(verdict=HELD, reason="none of the %d feasible paths reaches a panic, for every choice of the %d character(s)" % (npaths, k))
+                except Unsupported as e:
+                    ob.update(verdict=INCONCLUSIVE, reason="unsupported-construct: " + str(e)[:200])
         # ---- native replay
         if panics or drifts:
             nat = NativeRun(s, "erg_parser", "crates/erg_parser/lex.rs", helpers="""
